@@ -15,5 +15,6 @@ WellFormed == /\ case.op \in K4 => (OH(case) >= 1 /\ OW(case) >= 1 /\ case.sh >=
               /\ Expect(case) \in {"NPU", "CPU", "ANY"}
 Emit == PrintT(<<"CASE", ToJson([c |-> case, oh |-> IF case.op \in K4 THEN OH(case) ELSE 0,
                                  ow |-> IF case.op \in K4 THEN OW(case) ELSE 0,
+                                 ofm |-> Ofm(case),
                                  expect |-> Expect(case), failing |-> Failing(case), undecided |-> Undecided(case)])>>)
 =============================================================================
